@@ -18,6 +18,8 @@
 
 #include "libfive.h"
 #include "libfive/tree/tree.hpp"
+#include "libfive/tree/deserializer.hpp"
+#include "libfive/tree/serializer.hpp"
 #include <set>
 #include "libfive/tree/data.hpp"
 #include "libfive/tree/opcode.hpp"
@@ -146,6 +148,21 @@ public:
     Tree e; int k;
 };
 
+// C08: a serialisable oracle (registered clause, no payload): the unit ball, answered by ExprOracle
+class VerifBallClause : public OracleClause {
+public:
+    static Tree ball() {
+        return sqrt(Tree::X() * Tree::X() + Tree::Y() * Tree::Y() + Tree::Z() * Tree::Z()) - Tree(1.0f);
+    }
+    std::unique_ptr<Oracle> getOracle() const override { return std::make_unique<ExprOracle>(ball()); }
+    std::string name() const override { return "VerifBallClause"; }
+    bool serialize(Serializer&) const { return true; }
+    static std::unique_ptr<const OracleClause> deserialize(Deserializer&) {
+        return std::unique_ptr<const OracleClause>(new VerifBallClause());
+    }
+};
+REGISTER_ORACLE_CLAUSE(VerifBallClause)
+
 // C20: a progress handler that records what it is told and exposes the protected phase table
 struct RecHandler : public ProgressHandler {
     std::vector<double> vals; std::mutex m;
@@ -166,6 +183,7 @@ template <typename T> static void shape_str(const T* t, std::string& o) {
 
 // C11: schedule-point hook (LIBFIVE_VERIF): raise cancel at the k-th visit of a named site
 #include <chrono>
+#include <thread>
 static const char* SCHED_SITES[] = {"pool.loop", "pool.leaf", "pool.collect", "assign.loop", "dual.loop", "dual.work",
                                     "mesh.after_build", "mesh.after_assign", "mesh.after_walk"};
 static const int N_SCHED_SITES = sizeof(SCHED_SITES) / sizeof(SCHED_SITES[0]);
@@ -173,6 +191,7 @@ static std::atomic<long> g_site_count[16];
 static int g_cancel_site = -1; static long g_cancel_k = 0;
 static const BRepSettings* g_cancel_settings = nullptr;
 static std::atomic<int> g_cancel_fired(0);
+static int g_cancel_linger_ms = 0;
 static void sched_hook(const char* site, const BRepSettings* st) {
     for (int i = 0; i < N_SCHED_SITES; ++i) {
         if (strcmp(site, SCHED_SITES[i]) == 0) {
@@ -180,6 +199,9 @@ static void sched_hook(const char* site, const BRepSettings* st) {
             if (i == g_cancel_site && c == g_cancel_k) {
                 const BRepSettings* tgt = st ? st : g_cancel_settings;
                 if (tgt) { tgt->cancel.store(true); g_cancel_fired.store(1); }
+                // optionally hold the thread that raised the flag in the middle of its iteration, so that the
+                // other workers leave first (use-after-free of what they release shows up under AddressSanitizer)
+                if (g_cancel_linger_ms > 0) std::this_thread::sleep_for(std::chrono::milliseconds(g_cancel_linger_ms));
             }
             return;
         }
@@ -420,6 +442,9 @@ int main(int argc, char** argv) {
             else if (c == "bin") cx.handles.push_back(Tree::binary(op_of_name(t[1]), H(t[2]), H(t[3])));
             else if (c == "oracle") {
                 cx.handles.push_back(Tree(std::unique_ptr<const OracleClause>(new ExprOracleClause(H(t[1]), cx.noracles++))));
+            }
+            else if (c == "soracle") {
+                cx.handles.push_back(Tree(std::unique_ptr<const OracleClause>(new VerifBallClause())));
             }
             else if (c == "std") {
                 std::vector<Tree> a;
@@ -1301,6 +1326,7 @@ int main(int argc, char** argv) {
                 st.min_feature = of_hex32(t[4]);
                 Region<3> rg({of_hex32(t[5]), of_hex32(t[6]), of_hex32(t[7])}, {of_hex32(t[8]), of_hex32(t[9]), of_hex32(t[10])});
                 g_cancel_site = std::stoi(t[11]); g_cancel_k = std::stol(t[12]);
+                g_cancel_linger_ms = t.size() > 13 ? std::stoi(t[13]) : 0;
                 for (auto& c2 : g_site_count) c2.store(0);
                 g_cancel_fired.store(0);
                 g_cancel_settings = &st;
